@@ -31,6 +31,29 @@ OutTypesOf(inst, node, ty, prefix, opt, flags) ==
           ELSE OutTypesOf(inst, e, cty, pre, opt \/ e.mode = "optional", flags))
 OutTypes(inst) == OutTypesOf(inst, inst.q, RootType(inst), "", FALSE, <<>>)
 
+(* ---------------- variables and the types the query implies for them (C12, C11) ----------------
+   One use of a variable implies the type below (filters.rs infer_variable_type); a variable used several times gets the greatest
+   common subtype of its uses (fill_in_query_variables), NoTy when the uses are incompatible.                                  *)
+UseType(op, pt) ==
+  CASE op \in {"=", "!="} -> pt
+    [] op \in {"<", "<=", ">", ">="} -> Ty(pt.base, <<FALSE>> \o Tail(pt.mods))
+    [] op \in {"contains", "not_contains"} -> Inner(pt)
+    [] op \in {"one_of", "not_one_of"} -> Ty(pt.base, <<FALSE>> \o pt.mods)
+    [] OTHER -> Ty("String", <<FALSE>>)
+VarUsesIn(fs, pt) == FlatMap(fs, LAMBDA f : IF f.arg.k = "var" THEN << <<f.arg.n, UseType(f.op, pt)>> >> ELSE <<>>)
+RECURSIVE VarUsesOf(_, _, _)
+VarUsesOf(inst, node, ty) ==
+  FlatMap(node.props, LAMBDA p : VarUsesIn(p.filters, PropType(inst, ty, p.name)))
+  \o FlatMap(node.edges, LAMBDA e :
+       LET cty == IF e.coerce # "" THEN e.coerce ELSE TypeRec(inst, ty).edges[e.edge].to
+       IN (IF e.mode = "fold" /\ HasCount(e) THEN VarUsesIn(e.count.filters, Ty("Int", <<FALSE>>)) ELSE <<>>) \o VarUsesOf(inst, e, cty))
+VarUses(inst) == VarUsesOf(inst, inst.q, RootType(inst))
+RECURSIVE MeetAll(_)
+MeetAll(ts) == IF Len(ts) = 1 THEN ts[1] ELSE LET r == MeetAll(Tail(ts)) IN IF IsNoTy(r) THEN r ELSE Intersect(ts[1], r)
+ImpliedVarTypes(inst) ==
+  LET us == VarUses(inst) IN
+  [n \in {us[j][1] : j \in 1..Len(us)} |-> LET sel == SelectSeq(us, LAMBDA u : u[1] = n) IN MeetAll([j \in 1..Len(sel) |-> sel[j][2]])]
+
 \* a row carries exactly the declared names and every value fits its declared type
 RowWellTyped(row, decl) ==
   /\ Len(row) = Len(decl)
